@@ -14,8 +14,8 @@ M = []   # mutants
 G = []   # benign
 
 
-def mut(name, file, pairs, props, expect, note=''):
-    M.append(dict(name=name, file=B + file, pairs=pairs, properties=props, expect=expect, note=note))
+def mut(name, file, pairs, props, expect, note='', all_occurrences=False):
+    M.append(dict(name=name, file=B + file, pairs=pairs, properties=props, expect=expect, note=note, all_occurrences=all_occurrences))
 
 
 def ben(name, file, pairs, props, note=''):
@@ -72,7 +72,7 @@ mut('close-join-before-abort', 'File.cpp', [["        /* finalize uncompressedFi
 mut('eos-inside-try', 'File.cpp', [["                file->m_uncompressedFileThreadRunning = false;\n        }\n    } catch (...) {\n        file->m_uncompressedFileThreadException = std::current_exception();\n    }\n\n    /* set end of file (on every way out, otherwise the consumer waits forever) */\n    file->m_readWriteQueue.setFileSize(file->m_readWriteQueue.tellp());\n}",
                                    "                file->m_uncompressedFileThreadRunning = false;\n        }\n\n        /* set end of file */\n        file->m_readWriteQueue.setFileSize(file->m_readWriteQueue.tellp());\n    } catch (...) {\n        file->m_uncompressedFileThreadException = std::current_exception();\n    }\n}"]],
     ['C10'], ['K5|File::uncompressedFileReadThread|m_readWriteQueue|handler:catch(...)'], 'worker leaves through catch(...) without declaring end of stream')
-mut('container-write-no-wait', 'UncompressedFile.cpp', [["    /* wait for free space */\n    tellgChanged.wait(lock, [&] {\n        return\n        m_abort ||\n        ((m_tellp - m_tellg) < m_bufferSize);\n    });\n\n    /* close a partly filled", "    /* close a partly filled"]],
+mut('container-write-no-wait', 'UncompressedFile.cpp', [["    /* wait for free space */\n    tellgChanged.wait(lock, [&] {\n        return\n        m_abort ||\n        ((m_tellp - m_tellg) < m_bufferSize) ||\n        (m_tellp < m_requestedEnd);\n    });\n\n    /* close a partly filled", "    /* close a partly filled"]],
     ['C12'], ['P2|UncompressedFile::write|void (const std::shared_ptr'], 'no back-pressure when appending inflated containers')
 mut('drop-dropolddata', 'File.cpp', [["    if (obj->objectType != ObjectType::Unknown115)\n        currentObjectCount++;\n\n    /* push data into readWriteQueue */\n    m_readWriteQueue.write(obj);\n\n    /* drop old data */\n    m_uncompressedFile.dropOldData();\n", "    if (obj->objectType != ObjectType::Unknown115)\n        currentObjectCount++;\n\n    /* push data into readWriteQueue */\n    m_readWriteQueue.write(obj);\n"]],
     ['C12'], ['P3|File::uncompressedFile2ReadWriteQueue'], 'consumed containers are never released')
@@ -157,8 +157,6 @@ mut('mode-recorded-early', 'File.cpp', [["    /* check */\n    if (is_open())\n 
     ['C13'], ['O3|open|mode-recorded'], 'an ignored second open() changes the mode close() dispatches on')
 mut('loop-exit-on-filesize', 'File.cpp', [["            file->uncompressedFile2CompressedFile();\n\n            /* check for eof */\n            if (!file->m_uncompressedFile.good())", "            file->uncompressedFile2CompressedFile();\n\n            /* check for eof */\n            if (!file->m_uncompressedFile.good() || (file->m_uncompressedFile.tellg() >= file->m_uncompressedFile.fileSize()))"]],
     ['C07'], ['K11|File::compressedFileWriteThread'], 'trailing empty container written or not depending on which worker runs first')
-mut('unsigned-buffer-size', 'UncompressedFile.h', [["    std::streamsize m_bufferSize {std::numeric_limits<std::streamsize>::max()};", "    std::size_t m_bufferSize {std::numeric_limits<std::size_t>::max()};"]],
-    ['C06', 'C10'], ['K2u|UncompressedFile::write'], 'header-only type change makes the admission test unsigned')
 mut('resync-eof-last-branch', 'ObjectHeaderBase.cpp', [["\t\t\t\t\tif (is.eof()) {\n\t\t\t\t\t\tthrow Exception(\"ObjectHeaderBase::read(): End of File.\");\n\t\t\t\t\t}\n\n", ""],
                                                         ["\t\t\t\t\t\t/* do not seek as we did not find a single char */\n", "\t\t\t\t\t\t/* do not seek as we did not find a single char */\n\t\t\t\t\t\tif (is.eof()) {\n\t\t\t\t\t\t\tthrow Exception(\"ObjectHeaderBase::read(): End of File.\");\n\t\t\t\t\t\t}\n"]],
     ['C10', 'C09'], ['S1|loop|eof-every-retry'], 'input ending in a partial signature makes the worker spin')
@@ -197,6 +195,56 @@ mut('append-at-get-position', 'UncompressedFile.cpp', [["    m_data.push_back(lo
 mut('new-container-chains-from-front', 'UncompressedFile.cpp', [["                    m_data.back()->uncompressedFileSize +\n                    m_data.back()->filePosition;", "                    m_data.back()->uncompressedFileSize +\n                    m_data.front()->filePosition;"]],
     ['C15'], ['R3|UncompressedFile::write|'], 'a new container starts at front.filePosition + back.size: overlaps as soon as two containers are buffered')
 
+mut('write-loop-to-if', 'UncompressedFile.cpp', [["    /* write data */\n    while (n > 0) {", "    /* write data */\n    if (n > 0) {"]],
+    ['C15', 'C04'], ['R4|UncompressedFile::write|m_tellp'], 'a write that does not fit into the current container drops its remainder')
+mut('counter-narrowed', 'File.h', [["    uint64_t currentUncompressedFileSize {};", "    uint32_t currentUncompressedFileSize {};"]],
+    ['C05'], ['H4|width|uncompressedFileSize'], 'the running uncompressed size wraps at 4 GiB')
+mut('open-resets-before-guard', 'File.cpp', [["    /* check */\n    if (is_open())\n        return;\n\n    /* try to open file */", "    currentUncompressedFileSize = 0;\n    currentObjectCount = 0;\n\n    /* check */\n    if (is_open())\n        return;\n\n    /* try to open file */"]],
+    ['C05'], ['H2|open|statisticsSize'], 'a redundant open() on an open File wipes the running statistics')
+
+PUB = "    m_requestedEnd = n + m_tellg;\n    tellgChanged.notify_all();\n"
+ADM = "        ((m_tellp - m_tellg) < m_bufferSize) ||\n        (m_tellp < m_requestedEnd);\n"
+mut('request-not-published', 'UncompressedFile.cpp', [[PUB, ""]],
+    ['C06'], ['T2|m_uncompressedFile'], 'the reader waits without admitting the writer: a request beyond the buffer size blocks both')
+mut('request-published-silently', 'UncompressedFile.cpp', [[PUB, "    m_requestedEnd = n + m_tellg;\n"]],
+    ['C06'], ['T2|m_uncompressedFile', 'K3|'], 'a writer already waiting for free space is not woken when the request is published')
+mut('request-published-short', 'UncompressedFile.cpp', [[PUB, "    m_requestedEnd = n;\n    tellgChanged.notify_all();\n"]],
+    ['C06'], ['T2|m_uncompressedFile'], 'the published end is the request size, not the position: useless once the get position has advanced')
+mut('writers-ignore-request', 'UncompressedFile.cpp', [[ADM, "        ((m_tellp - m_tellg) < m_bufferSize);\n"]],
+    ['C06'], ['T2|m_uncompressedFile|read'], 'admission by fill level only: a payload larger than buffer + container deadlocks the read pipeline', all_occurrences=True)
+mut('one-writer-ignores-request', 'UncompressedFile.cpp', [[ADM + "    });\n\n    /* close a partly filled", "        ((m_tellp - m_tellg) < m_bufferSize);\n    });\n\n    /* close a partly filled"]],
+    ['C06'], ['K2s|'], 'the container overload is not admitted by a waiting reader: read mode deadlocks on large payloads')
+mut('request-reset-by-seek', 'UncompressedFile.cpp', [["    m_tellg = std::min(static_cast<std::streamsize>(m_tellg + off), m_fileSize);\n", "    m_tellg = std::min(static_cast<std::streamsize>(m_tellg + off), m_fileSize);\n    m_requestedEnd = 0;\n"]],
+    ['C06'], ['T2|m_uncompressedFile'], 'another function withdraws the admission a waiting reader relies on')
+
+SER_IF = "    if (flags & Flags::SingleByte)\n        singleByte.write(os);\n    else {\n        if (flags & Flags::CompactByte)\n            compact.write(os);\n        else\n            general.write(os);\n    }\n"
+mut('serialevent-write-switch-both-bits', 'SerialEvent.cpp', [[SER_IF, "    switch (flags & (Flags::SingleByte | Flags::CompactByte)) {\n    case Flags::SingleByte:\n        singleByte.write(os);\n        break;\n    case Flags::CompactByte:\n        compact.write(os);\n        break;\n    default:\n        general.write(os);\n        break;\n    }\n"]],
+    ['C03', 'C01'], ['L3|SerialEvent', 'L1|SerialEvent'], 'with both variant bits set the writer emits the general variant, the size function and the reader the single-byte one')
+mut('systemvariable-early-return-skips-pad', 'SystemVariable.cpp', [["    os.write(reinterpret_cast<char *>(data.data()), dataLength);\n\n    /* skip padding */", "    if (data.empty())\n        return;\n    os.write(reinterpret_cast<char *>(data.data()), dataLength);\n\n    /* skip padding */"]],
+    ['C03', 'C01'], ['L5|SystemVariable'], 'the early return for an empty payload also skips the alignment padding')
+
+mut('unsigned-buffer-size-no-handoff', 'UncompressedFile.cpp', [[ADM, "        ((m_tellp - m_tellg) < m_bufferSize);\n"]],
+    ['C06', 'C10', 'C09', 'C07'], ['K2u|UncompressedFile::write'], 'fill-level protocol with an unsigned comparison: a skipped unknown object wraps the fill level and the producer is never admitted again', all_occurrences=True)
+M[-1]['extra_edits'] = [('UncompressedFile.h', [["    std::streamsize m_bufferSize {std::numeric_limits<std::streamsize>::max()};", "    std::size_t m_bufferSize {std::numeric_limits<std::size_t>::max()};"]])]
+
+mut('signed-selector', 'CanErrorFrame.h', [["    uint16_t length {};", "    int16_t length {};"]],
+    ['C02'], ['L9|CanErrorFrame|length'], 'length >= 0x8000 now selects the layout without the trailing field')
+mut('reader-stops-at-header-size', 'File.cpp', [["            /* check for eof */\n            if (!file->m_compressedFile.good())\n                file->m_compressedFileThreadRunning = false;\n        }\n    } catch (...) {\n        file->m_compressedFileThreadException = std::current_exception();\n    }\n\n    /* set end of file (on every way out, otherwise the consumer waits forever) */\n    file->m_uncompressedFile.setFileSize(file->m_uncompressedFile.tellp());",
+                                                    "            /* check for eof */\n            if (!file->m_compressedFile.good() || (static_cast<uint64_t>(file->m_compressedFile.tellg()) >= file->fileStatistics.fileSize))\n                file->m_compressedFileThreadRunning = false;\n        }\n    } catch (...) {\n        file->m_compressedFileThreadException = std::current_exception();\n    }\n\n    /* set end of file (on every way out, otherwise the consumer waits forever) */\n    file->m_uncompressedFile.setFileSize(file->m_uncompressedFile.tellp());"]],
+    ['C08'], ['E5|File::compressedFileReadThread'], 'with the initial all-zero header the inflating worker stops after the first container')
+PAD_SEEK = "    /* skip padding */\n    is.seekg(objectSize % 4, std::ios_base::cur);\n}\n\nvoid LogContainer::write"
+PAD_READ = "    /* skip padding */\n    std::vector<char> padding(objectSize % 4);\n    is.read(padding.data(), objectSize % 4);\n}\n\nvoid LogContainer::write"
+mut('container-pad-by-read', 'LogContainer.cpp', [[PAD_SEEK, PAD_READ]],
+    ['C08'], ['E6|LogContainer'], 'a file cut inside the padding behind a complete container loses that container')
+mut('close-stops-compressor', 'File.cpp', [["        /* finalize compressedFileThread */\n        if (m_compressedFileThread.joinable())\n            m_compressedFileThread.join();\n        if (m_compressedFileThreadException) {", "        /* finalize compressedFileThread */\n        m_compressedFileThreadRunning = false;\n        if (m_compressedFileThread.joinable())\n            m_compressedFileThread.join();\n        if (m_compressedFileThreadException) {"]],
+    ['C07', 'C01', 'C13', 'C04'], ['K12|File::compressedFileWriteThread'], 'a compression thread that is still busy when close() runs stops with data pending')
+mut('drop-before-rewind', 'File.cpp', [["    m_uncompressedFile.seekg(-ohb.calculateHeaderSize(), std::ios_base::cur);\n\n    /* create object */", "    m_uncompressedFile.dropOldData();\n    m_uncompressedFile.seekg(-ohb.calculateHeaderSize(), std::ios_base::cur);\n\n    /* create object */"]],
+    ['C06', 'C12', 'C01'], ['P6|File::uncompressedFile2ReadWriteQueue'], 'an object starting 16 bytes before a container boundary: the rewind points into released data, the decoder spins')
+mut('skipp-override-moves-position', 'UncompressedFile.cpp', [["bool UncompressedFile::good() const {", "void UncompressedFile::skipp(std::streamsize s) {\n    std::lock_guard<std::mutex> lock(m_mutex);\n    m_tellp += s;\n    if (m_tellp >= m_fileSize)\n        m_fileSize = m_tellp;\n    tellpChanged.notify_all();\n}\n\nbool UncompressedFile::good() const {"]],
+    ['C15', 'C01', 'C04'], ['R5|UncompressedFile::skipp'], 'padding that runs past the end of the last container leaves a hole once that container has been dropped')
+M[-1]['extra_edits'] = [('AbstractFile.h', [["    virtual void skipp(std::streamsize s) final;", "    virtual void skipp(std::streamsize s);"]]),
+                        ('UncompressedFile.h', [["    std::streampos tellp() override;\n", "    std::streampos tellp() override;\n    void skipp(std::streamsize s) override;\n"]])]
+
 # ------------------------------------------------------------------ benign refactorings (must stay silent)
 ALL_LAYOUT = ['C01', 'C02', 'C03', 'C10', 'C14']
 ben('reorder-size-terms', 'AppText.cpp', [["        sizeof(source) +\n        sizeof(reservedAppText1) +", "        sizeof(reservedAppText1) +\n        sizeof(source) +"]], ALL_LAYOUT)
@@ -232,6 +280,18 @@ ben('chain-through-local-last', 'UncompressedFile.cpp', [["                logCo
                                                              "                const std::shared_ptr<LogContainer> & last = m_data.back();\n                logContainer->filePosition = last->uncompressedFileSize + last->filePosition;"]], ['C10', 'C12', 'C15'])
 ben('append-cut-early-return-form', 'UncompressedFile.cpp', [["    if (lastLogContainer) {\n        std::streamoff offset = m_tellp - lastLogContainer->filePosition;\n        lastLogContainer->uncompressedFile.resize(offset);\n        lastLogContainer->uncompressedFileSize = offset;\n    }\n",
                                                                  "    if (lastLogContainer != nullptr) {\n        const std::streamoff used = m_tellp - lastLogContainer->filePosition;\n        lastLogContainer->uncompressedFileSize = used;\n        lastLogContainer->uncompressedFile.resize(used);\n    }\n"]], ['C10', 'C15'])
+ben('stream-loops-not-equal-zero', 'UncompressedFile.cpp', [["    /* write data */\n    while (n > 0) {", "    /* write data */\n    while (n != 0) {"]], ['C10', 'C15', 'C04'])
+ben('open-resets-counters-after-guard', 'File.cpp', [["        return;\n    m_openMode = mode;\n", "        return;\n    m_openMode = mode;\n    currentUncompressedFileSize = 0;\n    currentObjectCount = 0;\n"]], ['C05', 'C07', 'C11', 'C13'])
+ben('systemvariable-skip-empty-payload', 'SystemVariable.cpp', [["    os.write(reinterpret_cast<char *>(data.data()), dataLength);\n\n    /* skip padding */\n    os.skipp(objectSize % 4);", "    if (!data.empty())\n        os.write(reinterpret_cast<char *>(data.data()), dataLength);\n\n    /* skip padding */\n    os.skipp(objectSize % 4);"]], ALL_LAYOUT)
+SER_IF = "    if (flags & Flags::SingleByte)\n        singleByte.write(os);\n    else {\n        if (flags & Flags::CompactByte)\n            compact.write(os);\n        else\n            general.write(os);\n    }\n"
+SER_SW = "    switch (flags & (Flags::SingleByte | Flags::CompactByte)) {\n    case Flags::SingleByte:\n    case Flags::SingleByte | Flags::CompactByte:\n        singleByte.write(os);\n        break;\n    case Flags::CompactByte:\n        compact.write(os);\n        break;\n    default:\n        general.write(os);\n        break;\n    }\n"
+ben('serialevent-write-switch-complete', 'SerialEvent.cpp', [[SER_IF, SER_SW]], ALL_LAYOUT)
+ben('unsigned-buffer-size', 'UncompressedFile.h', [["    std::streamsize m_bufferSize {std::numeric_limits<std::streamsize>::max()};", "    std::size_t m_bufferSize {std::numeric_limits<std::size_t>::max()};"]],
+    ['C06', 'C07', 'C09', 'C10'], 'was a deadlock under the fill-level protocol (seeds C06-r2a, C09-r2a, C10-r2a, C07-r3a); with the request hand-off of fix d3846c0 the wrapped comparison can no longer block the producer for good (demo of C07-r3a passes at HEAD)')
+ben('container-pad-by-read-roundtrip', 'LogContainer.cpp', [[PAD_SEEK, PAD_READ]], ['C01', 'C02', 'C03', 'C04', 'C10'],
+    'reading the alignment bytes into a scratch buffer moves the position like the seek does: harmless for complete files (it is a C08 mutant)')
+ben('drop-at-function-start', 'File.cpp', [["void File::uncompressedFile2ReadWriteQueue() {\n    /* identify type */\n", "void File::uncompressedFile2ReadWriteQueue() {\n    /* release what the previous call consumed */\n    m_uncompressedFile.dropOldData();\n\n    /* identify type */\n"]],
+    ['C06', 'C12', 'C01', 'C11', 'C07'], 'an additional drop before anything is consumed: the rewinds behind it only take back what was read since')
 ben('header-guard-positive-form', 'File.cpp', [["    if (ohb.objectSize < ohb.calculateHeaderSize()) {\n        /* an object cannot be smaller than its header; skipping by such a size would never advance */\n        throw Exception(\"File::uncompressedFile2ReadWriteQueue(): Object size is smaller than the object header.\");\n    }\n",
                                                   "    if (!(ohb.objectSize >= ohb.calculateHeaderSize())) {\n        throw Exception(\"File::uncompressedFile2ReadWriteQueue(): Object size is smaller than the object header.\");\n    }\n"]], ['C10', 'C09', 'C08', 'C01'])
 ben('close-extract-helpers', 'File.cpp', [["void File::close() {\n    /* check if file is open */\n    if (!is_open())\n        return;\n\n    /* read */\n    if (m_openMode & std::ios_base::in) {\n        /* finalize compressedFileThread */\n        m_compressedFileThreadRunning = false;\n        m_compressedFile.close();\n\n        /* finalize uncompressedFileThread */\n        m_uncompressedFileThreadRunning = false;\n        m_uncompressedFile.abort();\n\n        /* abort readWriteQueue */\n        m_readWriteQueue.abort();\n\n        /* finalize compressedFileThread */\n        if (m_compressedFileThread.joinable())\n            m_compressedFileThread.join();\n\n        /* finalize uncompressedFileThread */\n        if (m_uncompressedFileThread.joinable())\n            m_uncompressedFileThread.join();\n    }\n",
@@ -252,7 +312,7 @@ def main():
             src = open(os.path.join('/repo', m['file'])).read()
             new = src
             for old, rep in m['pairs']:
-                if new.count(old) != 1:
+                if new.count(old) != 1 and not (m.get('all_occurrences') and new.count(old) > 1):
                     raise SystemExit('%s: pattern occurs %d times: %r' % (m['name'], new.count(old), old[:80]))
                 new = new.replace(old, rep)
             diff = ''.join(difflib.unified_diff(src.splitlines(True), new.splitlines(True), 'a/' + m['file'], 'b/' + m['file']))
@@ -294,7 +354,7 @@ def main():
                 if (k_, i_) == ('u', 2):
                     e_['undecided_ok'] = True   # immediately invoked lambda in ObjectQueue::read: the rules answer 'undecided' (exit 2), not an alarm
                 ext.append(e_)
-    idx = {'mutants': [{k: v for k, v in m.items() if k not in ('pairs', 'extra_edits')} for m in M],
+    idx = {'mutants': [{k: v for k, v in m.items() if k not in ('pairs', 'extra_edits', 'all_occurrences')} for m in M],
            'benign': [{k: v for k, v in m.items() if k not in ('pairs', 'extra_edits')} for m in G] + ext}
     json.dump(idx, open('/verif/mutants/index.json', 'w'), indent=1)
     print('%d mutants, %d benign variants (+%d from sub-agents)' % (len(M), len(G), len(ext)))
